@@ -8,6 +8,10 @@ Open Scope Q_scope.
 Ltac splits := repeat match goal with |- _ /\ _ => split end.
 
 (* ------------------------------------------------------------------ percentage *)
+(* the hand model of Task.speed was written for exactly one skipped sample *)
+Lemma speed_skip_one : SPEED_SKIP = 1%Z.
+Proof. reflexivity. Qed.
+
 Lemma pct_consts : PCT_WHEN_NO_TOTAL = 0%Z /\ PCT_FACTOR = 100%Z /\ PCT_HI = 100%Z /\ PCT_LO = 0%Z.
 Proof. vm_compute. auto. Qed.
 
@@ -444,6 +448,7 @@ Proof.
   assert (Hpos : 0 < s_ts (last rest s0) - s_ts s0).
   { destruct (Qlt_le_dec 0 (s_ts (last rest s0) - s_ts s0)); auto. exfalso. apply Hne. lra. }
   apply Qle_shift_div_l; auto. rewrite Qmult_0_l.
+  change (skipn (Z.to_nat SPEED_SKIP) (s0 :: rest)) with rest.
   apply sumQ_nonneg. inversion Hf as [|? ? _ Hrest]; subst. clear - Hrest.
   induction Hrest as [|x l [_ Hx] _ IH]; simpl; constructor; auto.
 Qed.
